@@ -105,7 +105,9 @@ fn reprint(rng: &mut Rng, src: &str, toks: &[Tok], mode: Mode, hist: &mut Vec<&'
         let gap = &src[prev_end..lo];
         let prev_tag = if i > 0 { toks[i - 1].tag.as_str() } else { "" };
         // ---- at the boundary after the previous token (before the gap text)
-        if mode == Mode::Comments && rng.chance(1, 3) {
+        // nothing may precede a `#!` line: it is only recognised at the very start of the file
+        let before_shebang = i == 0 && src.starts_with("#!");
+        if mode == Mode::Comments && !before_shebang && rng.chance(1, 3) {
             if t.tag == "Newline" && !gap.contains('\\') && !gap.contains('\n') && !gap.contains("/*") && rng.chance(1, 2) {
                 // a line comment up to the newline (swallows the rest of the gap, which holds no token)
                 out.push_str(" //");
@@ -265,6 +267,11 @@ fn main() {
               "let s = \"/* not a comment */ // neither\"\nprintln(s)\n", "println(1) // trailing \" quote\nprintln(2)\n",
               "let x = 4\nlet y = 3 + -x * 2\nprintln(y)\nprintln(true and not false)\nprintln(2 * -3 ^ 2)\nprintln(10 - -2 ^ 2)\n",
               "let x = 4\nlet zs = [-x, -1 ^ 2, (-x), 7 % -x]\nprintln(zs)\nlet b = false\nprintln(not b or not true)\nprintln(f2(-x, -3 % 2))\nfn f2(a, b) = a + -b\n",
+              // shebang first line, attributes on methods inside `implement` / `extend`, attribute with arguments
+              "#!/usr/bin/env abra\nprintln(42)\nlet s = \"#! not a shebang\"\nprintln(s)\n",
+              "type Pt = { x: int }\ninterface Show2 {\n    fn show2(self) -> string\n}\nimplement Show2 for Pt {\n    #inline\n    fn show2(self) -> string { \"pt\" }\n}\nprintln(Pt(1).show2())\n",
+              "type Pt = { x: int }\nextend Pt {\n    #inline\n    fn getx(self) -> int { self.x }\n}\nprintln(Pt(7).getx())\n",
+              "#foreign(blocking)\nfn slow(x: int) -> int\n\nprintln(1)\n",
               "let t = (1,\n 2,\n 3)\nprintln(t)\n", "fn add(a, b) {\n  a + b\n}\nprintln(add(1,\n2))\n"] {
         progs.push(p.to_string());
     }
@@ -288,6 +295,11 @@ fn main() {
                        ("let b = false\nprintln(true and not b)\n", "let b = false\nprintln(true and // c\n\n not b)\n"),
                        ("let x = 4\nlet r = -x * 2\nprintln(r)\n", "let x = 4\nlet r =\n -x * 2\nprintln(r)\n")] {
         jobs.push(Job { orig: one.to_string(), variant: two.to_string(), mode: Mode::Continuation, what: vec!["continuation-D85-probe"] });
+    }
+    // a `#!` first line (any text, also non-ASCII, comment openers, quotes) never changes the program
+    for line in ["#!/usr/bin/env abra", "#!", "#! é 漢 \"q\" /* open", "#!x // y"] {
+        let body = "let a = [1, 2]\nprintln(a)\nprintln(\"z\") // c\n";
+        jobs.push(Job { orig: format!("\n{body}"), variant: format!("{line}\n{body}"), mode: Mode::Comments, what: vec!["shebang-line"] });
     }
     let n_gen = if quick { 150 } else { 2000 };
     for _ in 0..n_gen {
